@@ -191,7 +191,9 @@ pub fn run(ctx: &mut Ctx, _replay: Option<&[String]>) {
                 };
                 let t = BerTestBuilder {
                     h: h.clone(), decoder_implementation: fac, modulation: Modulation::Bpsk, puncturing_pattern: Some(&p),
-                    interleaving_columns: None, max_frame_errors: 1, max_iterations: 1, ebn0s_db: &[1.0], reporter: None, bch_max_errors: 0,
+                    interleaving_columns: None, max_frame_errors: 1, max_iterations: 1, ebn0s_db: &[1.0], reporter: None,
+                    // (the outer-code option only changes how frame errors are counted: sizes and rate must not depend on it; this test object is never run)
+                    bch_max_errors: *rng.pick(&[0u64, 0, 2, 12]),
                 }.build().unwrap();
                 ctx.emit(&format!("c12 chain {} B {} 0", sm(&h), bools(p.iter().copied())),
                     &format!("{} {} {} {}", t.n(), t.n_cw(), t.k(), hx(t.rate())), trues < plen, &["frame-size-bookkeeping-sweep"]);
